@@ -1,8 +1,8 @@
 (* glue for the correspondence files Cases_C11*.v written by harness/c11:
    one case = one history on the real app from genesis: the number of validators, the fingerprint of
-   the real stores' projection at genesis, and for every
-   operation what the real app did (accepted?, the touched validators' records, allowances,
-   redelegation / unbonding entry counts, height); plus all validators at the end.
+   the real stores' projection at genesis, and for every operation what the real app did (accepted?,
+   fingerprint of the whole projection afterwards, height; for the first histories also the explicit
+   records of the validators the operation names); plus all validators at the end.
    shares_mismatch = true  iff  the model, run on the same operations, disagrees anywhere. *)
 From Coq Require Import ZArith List Bool.
 From FxV Require Import lib.Dec model.M_Shares.
@@ -10,32 +10,28 @@ Import ListNotations.
 Open Scope Z_scope.
 
 Definition mk_si (p st h : Z) : sinfo := {| si_prev := p; si_stake := st; si_height := h |}.
-Definition mk_v (tok sh : Z) (dels : list (Z * Z)) (period : Z) (hist : list (Z * Z))
-           (start : list (Z * sinfo)) (slashes : list (Z * Z)) : vstate :=
-  {| v_tokens := tok; v_shares := sh; v_dels := dels; v_period := period; v_hist := hist;
+(* hist entries are given as (period, refcount, cumulative ratio) *)
+Definition mk_v (tok sh status : Z) (jailed : bool) (ubh : Z) (dels : list (Z * Z)) (period cur out : Z)
+           (hist : list (Z * Z * Z)) (start : list (Z * sinfo)) (slashes : list (Z * Z * Z)) : vstate :=
+  {| v_tokens := tok; v_shares := sh; v_status := status; v_jailed := jailed; v_ubh := ubh; v_dels := dels;
+     v_period := period; v_cur := cur; v_out := out;
+     v_hist := map (fun e => (fst (fst e), snd (fst e))) hist;
+     v_ratio := map (fun e => (fst (fst e), snd e)) hist;
      v_start := start; v_slashes := slashes |}.
-Definition mk_state (vals : list vstate) (h : Z) : state :=
-  {| s_vals := vals; s_allow := []; s_reds := []; s_ubds := []; s_height := h |}.
 
 Record sobs := {
   o_ok : bool;
-  o_digest : Z;                        (* fingerprint of the whole projection (all validators, allowances, entries, height) *)
-  o_full : bool;                       (* are the explicit records below filled in? *)
-  o_vals : list (Z * vstate);          (* validators the operation names, as read from the real stores *)
-  o_allow : list (akey * Z);           (* every non-zero allowance *)
-  o_reds : list (Z * Z * Z * Z);       (* delegator, src, dst, number of entries *)
-  o_ubds : list (Z * Z * Z);           (* delegator, validator, number of entries *)
+  o_digest : Z;                        (* fingerprint of the whole projection *)
+  o_vals : list (Z * vstate);          (* optionally: validators the operation names, as read from the real stores *)
   o_height : Z
 }.
-Definition mk_obs ok dg vals allow reds ubds h : sobs :=
-  {| o_ok := ok; o_digest := dg; o_full := true; o_vals := vals; o_allow := allow; o_reds := reds; o_ubds := ubds; o_height := h |}.
-Definition mk_obs_d ok dg h : sobs :=
-  {| o_ok := ok; o_digest := dg; o_full := false; o_vals := []; o_allow := []; o_reds := []; o_ubds := []; o_height := h |}.
+Definition mk_obs ok dg vals h : sobs := {| o_ok := ok; o_digest := dg; o_vals := vals; o_height := h |}.
+Definition mk_obs_d ok dg h : sobs := {| o_ok := ok; o_digest := dg; o_vals := []; o_height := h |}.
 
 (* fingerprint: polynomial hash modulo 2^64 (odd base) over a canonical serialisation, every number fed
-   as its 64-bit limbs (at most five (all modelled quantities are below 2^320); the harness computes the same function
-   (harness/c11: digest) over the records read from the real stores.  Allowances and entries are hashed
-   order-independently (sum of per-record hashes). *)
+   as its 64-bit limbs (at most five: all modelled quantities are below 2^320); the harness computes the same function
+   (harness/c11: digest) over the records read from the real stores.  Allowances, entries and payouts are
+   hashed order-independently (sum of per-record hashes). *)
 Definition hM : Z := 18446744073709551615.
 Definition hB : Z := 1000003.
 Definition hstep (acc x : Z) : Z := Z.land (acc * hB + x + 1) hM.
@@ -47,23 +43,26 @@ Fixpoint hlimbs (fuel : nat) (acc x : Z) : Z :=
 (* the limbs of x (least significant first, at most five), then a terminator *)
 Definition hnum (acc x : Z) : Z := hstep (hlimbs 5 acc x) 0.
 Definition hmix (l : list Z) : Z := fold_left hnum l 7.
+Definition b2n (b : bool) : Z := if b then 1 else 0.
 Definition ser_v (v : vstate) : list Z :=
-  [v_tokens v; v_shares v; Z.of_nat (length (v_dels v))] ++
+  [v_tokens v; v_shares v; v_status v; b2n (v_jailed v); v_ubh v; Z.of_nat (length (v_dels v))] ++
   flat_map (fun e => [fst e; snd e]) (v_dels v) ++
-  [v_period v; Z.of_nat (length (v_hist v))] ++
-  flat_map (fun e => [fst e; snd e]) (v_hist v) ++
+  [v_period v; v_cur v; v_out v; Z.of_nat (length (v_hist v))] ++
+  flat_map (fun e => [fst e; snd e; hratio (fst e) v]) (v_hist v) ++
   [Z.of_nat (length (v_start v))] ++
   flat_map (fun e => [fst e; si_prev (snd e); si_stake (snd e); si_height (snd e)]) (v_start v) ++
   [Z.of_nat (length (v_slashes v))] ++
-  flat_map (fun e => [fst e; snd e]) (v_slashes v).
+  flat_map (fun e => let '(h, p, f) := e in [h; p; f]) (v_slashes v).
+Definition hsum {A} (f : A -> option Z) (l : list A) : Z :=
+  fold_right (fun e acc => match f e with Some x => Z.land (acc + x) hM | None => acc end) 0 l.
 Definition digest (s : state) : Z :=
   let hv := hmix (s_height s :: Z.of_nat (length (s_vals s)) :: flat_map ser_v (s_vals s)) in
-  let ha := fold_right (fun kv acc => if snd kv =? 0 then acc
-                                      else let '(a, b, c) := fst kv in Z.land (acc + hmix [a; b; c; snd kv]) hM)
-                       0 (s_allow s) in
-  let hr := fold_right (fun e acc => let '(d, f, t) := e in Z.land (acc + hmix [d; f; t]) hM) 0 (s_reds s) in
-  let hu := fold_right (fun e acc => let '(d, w, _) := e in Z.land (acc + hmix [d; w]) hM) 0 (s_ubds s) in
-  hmix [hv; ha; hr; hu].
+  let ha := hsum (fun kv : akey * Z => if snd kv =? 0 then None
+                                       else let '(a, b, c) := fst kv in Some (hmix [a; b; c; snd kv])) (s_allow s) in
+  let hr := hsum (fun e => Some (hmix [r_del e; r_src e; r_dst e; r_h e; r_bal e; r_sh e])) (s_reds s) in
+  let hu := hsum (fun e => Some (hmix [u_del e; u_val e; u_h e; u_init e; u_bal e])) (s_ubds s) in
+  let hp := hsum (fun kv : Z * Z => if snd kv =? 0 then None else Some (hmix [fst kv; snd kv])) (s_paid s) in
+  hmix [hv; ha; hr; hu; hp].
 
 (* every history starts at genesis: the model starts from M_Shares.gen_state (for which the invariant of
    the theorems is proved) and the fingerprint of the real genesis projection must agree with it *)
@@ -72,6 +71,8 @@ Definition mk_shares_case n d s f : shares_case := {| c_nvals := n; c_init_diges
 Definition c_init (c : shares_case) : state := gen_state (c_nvals c).
 
 Definition pair_eqb (x y : Z * Z) : bool := (fst x =? fst y) && (snd x =? snd y).
+Definition trip_eqb (x y : Z * Z * Z) : bool :=
+  let '(a, b, c) := x in let '(a', b', c') := y in (a =? a') && (b =? b') && (c =? c').
 Definition si_eqb (x y : sinfo) : bool :=
   (si_prev x =? si_prev y) && (si_stake x =? si_stake y) && (si_height x =? si_height y).
 Fixpoint list_eqb {A} (f : A -> A -> bool) (l1 l2 : list A) : bool :=
@@ -80,26 +81,20 @@ Fixpoint list_eqb {A} (f : A -> A -> bool) (l1 l2 : list A) : bool :=
   | x :: r1, y :: r2 => f x y && list_eqb f r1 r2
   | _, _ => false
   end.
+(* explicit comparison; the ratio of every historical record is compared through hratio *)
 Definition v_eqb (x y : vstate) : bool :=
-  (v_tokens x =? v_tokens y) && (v_shares x =? v_shares y) &&
+  (v_tokens x =? v_tokens y) && (v_shares x =? v_shares y) && (v_status x =? v_status y) &&
+  Bool.eqb (v_jailed x) (v_jailed y) && (v_ubh x =? v_ubh y) &&
   list_eqb pair_eqb (v_dels x) (v_dels y) && (v_period x =? v_period y) &&
+  (v_cur x =? v_cur y) && (v_out x =? v_out y) &&
   list_eqb pair_eqb (v_hist x) (v_hist y) &&
+  forallb (fun e => hratio (fst e) x =? hratio (fst e) y) (v_hist y) &&
   list_eqb (fun a b => (fst a =? fst b) && si_eqb (snd a) (snd b)) (v_start x) (v_start y) &&
-  list_eqb pair_eqb (v_slashes x) (v_slashes y).
-
-Definition sumZ (l : list Z) : Z := fold_right Z.add 0 l.
+  list_eqb trip_eqb (v_slashes x) (v_slashes y).
 
 Definition obs_ok (s : state) (ok : bool) (o : sobs) : bool :=
   Bool.eqb ok (o_ok o) && (digest s =? o_digest o) && (s_height s =? o_height o) &&
-  (negb (o_full o) ||
-  forallb (fun iv => match get_val (fst iv) s with Some v => v_eqb v (snd iv) | None => false end) (o_vals o) &&
-  forallb (fun kv => aget (fst kv) (s_allow s) =? snd kv) (o_allow o) &&
-  (Z.of_nat (length (filter (fun kv => negb (snd kv =? 0)) (s_allow s))) =? Z.of_nat (length (o_allow o))) &&
-  forallb (fun e => let '(d, f, t, n) := e in red_entries d f t s =? n) (o_reds o) &&
-  (Z.of_nat (length (s_reds s)) =? sumZ (map (fun e => snd e) (o_reds o))) &&
-  forallb (fun e => let '(d, w, n) := e in ubd_entries d w s =? n) (o_ubds o) &&
-  (Z.of_nat (length (s_ubds s)) =? sumZ (map (fun e => snd e) (o_ubds o))) &&
-  (s_height s =? o_height o)).
+  forallb (fun iv => match get_val (fst iv) s with Some v => v_eqb v (snd iv) | None => false end) (o_vals o).
 
 (* run the model along the observed history; None at the first disagreement *)
 Fixpoint check_steps (s : state) (l : list (op * sobs)) : option state :=
@@ -117,8 +112,7 @@ Definition shares_mismatch (c : shares_case) : bool :=
   | Some s => negb (list_eqb v_eqb (s_vals s) (c_final c))
   end.
 
-(* diagnostics (not used by the driver): index of the first disagreeing step, -1 if none,
-   length if only the final comparison fails *)
+(* diagnostics (not used by the driver): index of the first disagreeing step, -1 if none *)
 Fixpoint first_bad_from (i : Z) (s : state) (l : list (op * sobs)) : Z * state :=
   match l with
   | [] => (-1, s)
